@@ -206,6 +206,12 @@ fn run_read(bytes: Vec<u8>, k: Flt) -> (String, u64) {
 }
 
 fn run_write(calls: &[String], srcs: &[Vec<u8>], k: Flt) -> (String, u64, Option<Vec<u8>>, bool) {
+    let (s, n, fin, all_ok, _) = run_write_pos(calls, srcs, k);
+    (s, n, fin, all_ok)
+}
+
+/// as `run_write`, plus the position the sink was handed back at by the first successful `finish()`
+fn run_write_pos(calls: &[String], srcs: &[Vec<u8>], k: Flt) -> (String, u64, Option<Vec<u8>>, bool, Option<u64>) {
     let first: Vec<&str> = calls[0].split(',').collect();
     let base = if first[0] == "ap" { unhex(first[1]).unwrap_or_default() } else { vec![] };
     let io = FaultIo::new(base, k);
@@ -215,7 +221,7 @@ fn run_write(calls: &[String], srcs: &[Vec<u8>], k: Flt) -> (String, u64, Option
     if let Some(f) = &ro.fin { s += " "; s += &show_final(f); }
     // `src:…` is the refusal of the SOURCE archive's `by_index_raw` (index out of range), not an answer of the writer
     let all_ok = ro.tokens.iter().all(|t| t == "ok" || t.starts_with("ok=") || t.starts_with("src:"));
-    (s, cnt.get(), ro.fin, all_ok)
+    (s, cnt.get(), ro.fin, all_ok, ro.end_pos)
 }
 
 fn srcs_of(a: &std::collections::BTreeMap<String, String>) -> Vec<Vec<u8>> {
@@ -879,15 +885,24 @@ impl Stream for Fault {
             "fault.write" | "fault.writec" | "fault.writeo" => {
                 let calls: Vec<String> = a.get("calls").map(|c| c.split(';').map(|s| s.to_string()).collect()).unwrap_or_default();
                 let srcs = srcs_of(&a);
-                let (resp_w, _, fin_k, all_ok) = run_write(&calls, &srcs, k);
+                let (resp_w, _, fin_k, all_ok, pos_k) = run_write_pos(&calls, &srcs, k);
                 if resp_w.contains("panic") { f.push(OracleFailure { what: format!("panic under an injected I/O fault: {}", &resp_w[..resp_w.len().min(200)]) }); return f; }
                 // `drop` returns no Result (the crate documents that dropping "may silently fail"): a run counts
                 // as a success only if it contains an explicit finish()
                 let has_fin = calls.iter().any(|c| c == "fin");
                 if all_ok && has_fin {
-                    let (_, _, fin_free, _) = run_write(&calls, &srcs, None);
+                    let (_, _, fin_free, _, pos_free) = run_write_pos(&calls, &srcs, None);
                     let (lk, lf) = (fin_k.as_deref().and_then(listing), fin_free.as_deref().and_then(listing));
                     if lk != lf { f.push(OracleFailure { what: format!("writer: every call succeeded under the fault but the archive reads back differently: {:?} vs {:?}", lk, lf) }); }
+                    // "a result identical to the failure-free run" is, for a writer, the BYTES it produced (and where
+                    // it left the sink): two archives that list alike need not be the same archive - a directory
+                    // written behind the old one (D22: `new_append` ignored the failure of its repositioning seek)
+                    // leaves dead bytes inside the file and every later offset shifted
+                    else if fin_k != fin_free || pos_k != pos_free {
+                        let (bk, bf) = (fin_k.unwrap_or_default(), fin_free.unwrap_or_default());
+                        let at = bk.iter().zip(bf.iter()).position(|(x, y)| x != y).unwrap_or(bk.len().min(bf.len()));
+                        f.push(OracleFailure { what: format!("writer: every call succeeded under the fault but the bytes written differ from the fault-free run: {} vs {} bytes, first difference at offset {at}, sink handed back at {:?} vs {:?} (both read back as {:?})", bk.len(), bf.len(), pos_k, pos_free, lk) });
+                    }
                 }
             }
             _ => {}
